@@ -100,22 +100,24 @@ class Ctx:
             return True
         if z3.is_false(s):
             return False
+        # note: the *unsimplified* condition is recorded (z3's simplifier introduces internal
+        # symbols such as seq.nth_i / seq.nth_u that other solvers cannot read)
         if self.ex.prune:
-            t = self._quick(s)
-            f = self._quick(z3.Not(s))
+            t = self._quick(cond)
+            f = self._quick(z3.Not(cond))
             if t and not f:
-                self.assumptions.append(s)
+                self.assumptions.append(cond)
                 return True
             if f and not t:
-                self.assumptions.append(z3.Not(s))
+                self.assumptions.append(z3.Not(cond))
                 return False
             if not t and not f:
                 raise Infeasible()
         d = self.choose(2, label)
         if d == 0:
-            self.assumptions.append(s)
+            self.assumptions.append(cond)
             return True
-        self.assumptions.append(z3.Not(s))
+        self.assumptions.append(z3.Not(cond))
         return False
 
     def _quick(self, extra):
